@@ -21,6 +21,13 @@ for d in sorted(os.listdir(root)):
     args = [os.path.join(VERIF, "tools", "try_seed.py"), pid, src]
     if "-" in d:
         args += ["--name", d.split("-", 1)[1]]
+    try:
+        with open(os.path.join(src, "meta.json")) as fh:
+            base = json.load(fh).get("base")
+    except (OSError, ValueError):
+        base = None
+    if base:
+        args += ["--base", base]
     r = subprocess.run(args, capture_output=True, text=True)
     try:
         out = json.loads(r.stdout[r.stdout.index("{"):])
